@@ -22,6 +22,7 @@ import json
 import logging
 import os
 import re
+import warnings
 from email.message import Message
 from http.client import HTTPMessage
 
@@ -251,6 +252,7 @@ class C20(Check):
         self.process(ctx, E, self.gen_info(ctx, rng), 'info')
         self.process(ctx, E, self.gen_metascan(ctx, rng), 'metascan')
         self.process(ctx, E, self.gen_encoded(ctx, rng), 'encoded')
+        self.process(ctx, E, self.gen_try(ctx, rng), 'try')
         self.default_log_path(ctx, E)
 
     def corpus(self, ctx):
@@ -527,6 +529,25 @@ class C20(Check):
             ws.append({'call': 'textVsEncoded', 'resp': resp, 'text': text, 'codec': codec})
         return ws
 
+    # -- tryEncodings (the branch without chardet) -----------------------------------------------------------
+    def gen_try(self, ctx, rng):
+        try:
+            import chardet      # noqa: F401
+            ctx.notes['tryEncodings'] = 'chardet is installed: the trial loop does not run, stream skipped'
+            return []
+        except ImportError:
+            pass
+        docs = [bytes([x]) for x in range(256)] + [b'']
+        hot = [0x00, 0x41, 0x7f, 0x80, 0x81, 0x8d, 0x8f, 0x90, 0x9d, 0xa0, 0xe4, 0xff, 0xc3, 0xa4, 0xe2, 0x82, 0xac]
+        docs += [bytes([a, b]) for a in hot for b in hot]
+        for t in ['\xe4\xf6\xfc\xdf', '€', 'a€b', '中', 'caf\xe9']:
+            docs += [t.encode('utf-8')] + ([t.encode('latin-1')] if all(ord(c) < 256 for c in t) else []) + \
+                [t.encode('windows-1252', 'replace')]
+        for _ in range(ctx.n(600, 30000)):
+            n = rng.randint(1, 12)
+            docs.append(bytes(rng.choice(hot) if rng.random() < 0.4 else rng.randrange(32, 127) for _ in range(n)))
+        return [{'call': 'tryEncodings', 'doc': d.decode('latin-1')} for d in docs]
+
     # -- attribute lists straight into the callback of the meta parser --------------------------------------
     def gen_metascan(self, ctx, rng):
         """sequences of handle_starttag calls: what html.parser can report (lower-case names, None for a value-less
@@ -617,6 +638,21 @@ class C20(Check):
                 return self.plan_info(E, w)
             if call == 'metaScan':
                 return self.plan_metascan(E, w)
+            if call == 'tryEncodings':
+                b = w['doc'].encode('latin-1')
+                try:
+                    b.decode('utf-8')
+                    u8 = 1
+                except UnicodeDecodeError:
+                    u8 = 0
+                try:
+                    with warnings.catch_warnings():
+                        warnings.simplefilter('ignore')
+                        res = ('OK', E.tryEncodings(b, log=_silent))
+                except Exception as e:      # noqa: BLE001
+                    res = ('ERR', type(e).__name__)
+                got = 'OK ' + opt(res[1]) if res[0] == 'OK' else 'ERR ' + res[1]
+                return {'lines': ['try %d %s' % (u8, enc(w['doc']))], 'impl': [got], 'res': res}
             if call == 'textVsEncoded':
                 subs = []
                 for isb in (False, True):
@@ -764,6 +800,13 @@ class C20(Check):
                 self.oracle_meta(ctx, w, pl['events'], ('OK', pl['ctype']), case=False)
         elif call == 'metaScan':
             self.oracle_meta(ctx, w, w['events'], pl['res'], case=True)
+        elif call == 'tryEncodings':
+            b = w['doc'].encode('latin-1')
+            want = S.spec_try(b)
+            ctx.case(key=('try', w['doc']), nontrivial=not b.isascii(), kind='try:' + want, sample={'bytes': w['doc'], 'impl': list(pl['res'])})
+            if pl['res'] != ('OK', want):
+                ctx.violate('tryEncodings (without chardet) answers ascii for ASCII bytes, windows-1252 for valid windows-1252 '
+                            'with a Euro sign, else iso-8859-1', w, {'impl': list(pl['res']), 'spec': want})
         elif call == 'textVsEncoded':
             for sw, spl in pl['subs']:
                 self.oracle_info(ctx, E, sw, spl)
